@@ -203,3 +203,39 @@ Proof. unfold sec_of, nsec_of, NS. Z.div_mod_to_equations. lia. Qed.
 
 Lemma sec_of_mul u n : 0 <= n < NS -> sec_of (u * NS + n) = u /\ nsec_of (u * NS + n) = n.
 Proof. unfold sec_of, nsec_of, NS. intros H. Z.div_mod_to_equations. lia. Qed.
+
+(** [regular z L]: the wall-clock second [L] exists exactly once in zone [z] and time.Date finds it.
+    Holds for every [L] of a fixed-offset zone and for every [L] with [edge_okb z L = true]. *)
+Definition regular (z : tz) (L : Z) : Prop :=
+  local_to_utc z L = L - offset_at z L
+  /\ offset_at z (L - offset_at z L) = offset_at z L
+  /\ forall u, (L <= u + offset_at z u <-> L - offset_at z L <= u).
+
+Lemma edge_regular z L : edge_okb z L = true -> regular z L.
+Proof.
+  intros H. split; [ apply local_to_utc_edge; exact H | split ].
+  - pose proof (edge_okb_spec z L H) as (Hb & _).
+    pose proof (offset_at_bounded z L Hb). apply edge_offset; [ exact H | lia ].
+  - intros u. apply local_cmp. exact H.
+Qed.
+
+Lemma fixed_regular o L : regular (tz_fixed o) L.
+Proof.
+  split; [ rewrite local_to_utc_fixed, offset_at_fixed; reflexivity | split ].
+  - rewrite !offset_at_fixed. reflexivity.
+  - intros u. rewrite !offset_at_fixed. lia.
+Qed.
+
+Lemma le_inst A t : A * NS <= t <-> A <= sec_of t.
+Proof. unfold sec_of, NS. split; intros H; Z.div_mod_to_equations; lia. Qed.
+
+Lemma lt_inst A t : t < A * NS <-> sec_of t < A.
+Proof. pose proof (le_inst A t). lia. Qed.
+
+(** the master comparison: local day number of [t] against a regular local midnight [D * SPD] *)
+Lemma day_cmp z D t : regular z (D * SPD) ->
+  (D <= local_days z t <-> (D * SPD - offset_at z (D * SPD)) * NS <= t).
+Proof.
+  intros (_ & _ & R). rewrite le_inst, <- R. unfold local_days, local_secs, SPD.
+  split; intros H; Z.div_mod_to_equations; lia.
+Qed.
